@@ -201,6 +201,8 @@ func runHist(h *Hist) (string, string) {
 		return nil
 	}
 
+	curStart := start0
+	old := make([]bool, len(h.Reqs)) // no database: the request presents a token issued before the current process started (property clause 2)
 	toks := make([]*minted, len(h.Toks))
 	jtis := map[string]string{}
 	answers := make([]string, n)
@@ -263,7 +265,8 @@ func runHist(h *Hist) (string, string) {
 			if !h.DB {
 				stored = 0
 			}
-			evs = append(evs, "r"+strconv.FormatInt(e.restart(), 10))
+			curStart = e.restart()
+			evs = append(evs, "r"+strconv.FormatInt(curStart, 10))
 			continue
 		}
 		if t >= n {
@@ -286,6 +289,7 @@ func runHist(h *Hist) (string, string) {
 			reqIn[t] = fmt.Sprintf("%s:%s:%s:%s:%s:%s", c.B(m.lookupOK), iat, m.idr, c.X(sha256hex(presented)), c.B(rq.Skip), c.B(m.valid[rq.Method]))
 			starts[t] <- struct{}{}
 			ev := waitFor(t)
+			old[t] = !h.DB && !h.NoChk && m.hasIat && m.iat < curStart
 			if ev.kind == "done" {
 				finish(t, ev, false)
 				evs = append(evs, st, st, st, st)
@@ -364,6 +368,12 @@ func runHist(h *Hist) (string, string) {
 				impl += " VIOLATION=authorized-without-record"
 				break
 			}
+		}
+	}
+	for i := range old {
+		if old[i] && answers[i] == "auth" {
+			impl += " VIOLATION=token-issued-before-start-authorized-without-database"
+			break
 		}
 	}
 	return in, impl
